@@ -3,7 +3,9 @@
 package main
 
 import (
+	"bytes"
 	"fmt"
+	"sort"
 	"strconv"
 	"strings"
 	"time"
@@ -49,5 +51,77 @@ func init() {
 	}
 	handlers["quote"] = func(args []string) string {
 		return "ok " + tohex(strconv.Quote(unhex(args[0])))
+	}
+}
+
+func errString(err error) string {
+	if err == nil {
+		return "ok"
+	}
+	var pe compiler.PositionalError
+	if e, ok := err.(compiler.PositionalError); ok {
+		pe = e
+		return fmt.Sprintf("pos:%d:%d:%s", pe.Line, pe.Column, tohex(err.Error()))
+	}
+	return "plain:" + tohex(err.Error())
+}
+
+func optErr(err error) string {
+	if err == nil {
+		return "ok"
+	}
+	return "err:" + tohex(err.Error())
+}
+
+// smTable renders the final source-to-target table, sorted.
+func smTable(sm *compiler.SourceMap) (string, string) {
+	render := func(m map[int]map[int]compiler.Position) string {
+		var rows [][4]int
+		for l, cols := range m {
+			for c, p := range cols {
+				rows = append(rows, [4]int{l, c, p.Line, p.Col})
+			}
+		}
+		sort.Slice(rows, func(i, j int) bool {
+			if rows[i][0] != rows[j][0] {
+				return rows[i][0] < rows[j][0]
+			}
+			return rows[i][1] < rows[j][1]
+		})
+		parts := make([]string, len(rows))
+		for i, r := range rows {
+			parts[i] = fmt.Sprintf("%d,%d,%d,%d", r[0], r[1], r[2], r[3])
+		}
+		return strings.Join(parts, ";")
+	}
+	return render(sm.SourceLinesToTarget), render(sm.TargetLinesToSource)
+}
+
+func compileCase(in string) string {
+	t, err := compiler.ParseString(in)
+	var tree bytes.Buffer
+	t.Root.Tree(&tree, 0)
+	var cbuf bytes.Buffer
+	sm, cerr := t.Compose(&cbuf)
+	s2t, t2s := smTable(sm)
+	// Source mutates the tree (class handling), so Generate runs on a fresh parse
+	t2, _ := compiler.ParseString(in)
+	var gbuf bytes.Buffer
+	gerr := t2.Generate(&gbuf)
+	return strings.Join([]string{"done", errString(err), tohex(tree.String()), tohex(cbuf.String()), optErr(cerr),
+		s2t, t2s, tohex(gbuf.String()), optErr(gerr)}, "|")
+}
+
+func init() {
+	handlers["compile"] = func(args []string) string {
+		in := unhex(args[0])
+		return guarded(len(in), func() string { return compileCase(in) })
+	}
+	handlers["unquote"] = func(args []string) string {
+		s, err := strconv.Unquote(unhex(args[0]))
+		if err != nil {
+			return "err"
+		}
+		return "ok " + tohex(s)
 	}
 }
